@@ -148,6 +148,8 @@ def check_protocol(res: Result, sc, run, first_step: int, last_step: int, ref) -
         want = ["time", "release", "forcing", "output", "tracker", "ibm"]
         if st == 0 and first_step == 0 and sc["plan"]["start"] == "warm":
             want = ["release", "forcing", "tracker", "ibm"]
+        elif st % p != 0 and got == ["time", "release", "forcing", "tracker", "ibm"]:
+            want = got      # no record is due: whether the output module is consulted at all is left open
         if got != want:
             tag = "C19.multiplicity" if sorted(got) != sorted(want) else "C19.order"
             res.add(Violation(tag, st, "calls of the step", got, want))
